@@ -114,6 +114,18 @@ PROPS = {
         assumptions=["both twins are built by the same build of the crate from the same lines"],
         floors=(300_000, 20_000, 5_000_000, 300_000),
     ),
+    "C04": simple(
+        rule="three monitors. spec: lists whose rules all aim at one target URL in mixed categories (blocking / @@ / $important / tagged, with "
+             "options, badfilter twins, noise), engine (matched, important, exception) vs O-scan; non-trivial = >= 2 of {exception, important, "
+             "blocking} categories hit. mono (oracle-free): engines for L and L+x, x inserted at a random position and drawn from the same "
+             "vocabulary (or an existing rule with its @@ toggled); x exception => blocked(L+x) implies blocked(L); x blocking => blocked(L) "
+             "implies blocked(L+x); non-trivial = the verdicts differ or x matches the request. bad: (y, re-spelt twin$badfilter) must cancel "
+             "(option order, aliases 3p/third-party/~1p, xhr/css/frame/beacon, from=/domain=, domain order), (y, twin differing in exactly one "
+             "semantic aspect$badfilter) must not, a lone badfilter blocks nothing; non-trivial = y (with noise) blocks its sample URL.",
+        assumptions=["'same matching options' is decided by an independent canonical rule description in the harness, not by the crate's id hash",
+                     "tag, case-only and www.-only differences between a rule and its badfilter twin are outside the stated domain"],
+        floors=(500_000, 100_000, 6_000_000, 400_000),
+    ),
 }
 
 # ---------------------------------------------------------------------------------------------
@@ -155,6 +167,14 @@ MANIFEST_TEXT = {
         "note": "Differential only (both sides are the code under test); absolute correctness of each side is C01's job.",
         "technique": "runtime monitoring: differential twins + hook-measured fusion coverage",
         "design_ref": "DESIGN.md §4.5",
+    },
+    "C04": {
+        "text": "Runtime monitors on the real engine: (1) precedence vs the linear-scan reference on lists built so that exceptions, important and "
+                "blocking rules hit the same request; (2) oracle-free metamorphic monotonicity of rule addition; (3) badfilter cancellation on "
+                "re-spelt vs one-aspect-different twins decided by an independent canonical description.",
+        "note": "x never badfilter/csp/removeparam (stated domain); per-rule matching trusted (C02/C03).",
+        "technique": "runtime monitoring: reference-model differential + metamorphic relations over seeded workloads",
+        "design_ref": "DESIGN.md §4.4",
     },
 }
 
